@@ -550,6 +550,90 @@ def mergeNRun {α : Type} (arrs : List (List (Option α))) : Nat → List (Optio
         if start + runLen > a.length then none else
         (mergeNRun arrs fuel rest' (offs.set k (start + runLen))).map (copyRange a (start, start + runLen) ++ ·)
 
+
+/-! ### dictionary.rs: `merge_dictionary_values` (value level) -/
+
+abbrev Bytes := List Nat
+
+/-- a dictionary array at value level: keys (`none` = null key) and the VALUES array, each slot
+`some bytes` or `none` (= a null slot, whatever bytes lie under it) -/
+structure Dict where
+  keys : List (Option Nat)
+  values : List (Option Bytes)
+
+/-- logical column: a row is null when its key is null OR the value slot it points at is null -/
+def Dict.decode (d : Dict) : List (Option Bytes) :=
+  d.keys.map (fun k => k.bind (fun i => (d.values[i]?).join))
+
+/-- `compute_values_mask`: the value slots referenced by a valid key at a selected position -/
+def valuesMask (d : Dict) (mask : Option (List Bool)) : List Bool :=
+  (List.range d.values.length).map (fun v =>
+    (List.range d.keys.length).any (fun i =>
+      d.keys[i]? == some (some v) && (match mask with | some m => m.getD i false | none => true)))
+
+/-- `get_masked_values` / `masked_bytes`: `(idx, array.is_valid(idx).then_some(array.value(idx)))`
+for every set index — a null slot is interned as `None`, never by the bytes under it -/
+def maskedValues (d : Dict) (vm : List Bool) : List (Nat × Option Bytes) :=
+  (indicesAux vm 0).map (fun v => (v, (d.values[v]?).join))
+
+/-- state of the merge: `Interner` buckets (`bucket ↦ (current value, new key)`, hash collisions
+replace the bucket) and the `indices` (dictionary, value slot) of the merged values so far -/
+structure MergeState where
+  buckets : List (Nat × (Option Bytes × Nat))
+  indices : List (Nat × Nat)
+
+/-- `Interner::intern(value, || { indices.push((dictionary_idx, value_idx)); indices.len() })`.
+`hash` is an arbitrary bucket function; `none` = `DictionaryKeyOverflowError`.
+The comparison `*current != new` is on `Option<&[u8]>`: `None` is distinct from `Some("")`. -/
+def internStep (hash : Option Bytes → Nat) (maxKey : Nat) (st : MergeState) (dIdx : Nat)
+    (vv : Nat × Option Bytes) : Option (MergeState × Nat) :=
+  let fresh : Option (MergeState × Nat) :=
+    let n := st.indices.length
+    if n > maxKey then none
+    else some ({ buckets := (hash vv.2, (vv.2, n)) :: st.buckets, indices := st.indices ++ [(dIdx, vv.1)] }, n)
+  match st.buckets.lookup (hash vv.2) with
+  | some (cur, v) => if cur = vv.2 then some (st, v) else fresh
+  | none => fresh
+
+/-- the `for (value_idx, value) in values { mapping[value_idx] = intern(..) }` loop of one dictionary -/
+def mapDict (hash : Option Bytes → Nat) (maxKey : Nat) (dIdx : Nat) :
+    List (Nat × Option Bytes) → MergeState → List Nat → Option (MergeState × List Nat)
+  | [], st, mapping => some (st, mapping)
+  | vv :: rest, st, mapping =>
+    match internStep hash maxKey st dIdx vv with
+    | none => none
+    | some (st', k) => mapDict hash maxKey dIdx rest st' (mapping.set vv.1 k)
+
+/-- all dictionaries in order; `masks[i]` restricts the keys of dictionary `i` (interleave) -/
+def mergeLoop (hash : Option Bytes → Nat) (maxKey : Nat) (masks : Option (List (List Bool))) :
+    List Dict → Nat → MergeState → Option (MergeState × List (List Nat))
+  | [], _, st => some (st, [])
+  | d :: ds, dIdx, st =>
+    let mask := masks.bind (·[dIdx]?)
+    match mapDict hash maxKey dIdx (maskedValues d (valuesMask d mask)) st (List.replicate d.values.length 0) with
+    | none => none
+    | some (st', mapping) =>
+      match mergeLoop hash maxKey masks ds (dIdx + 1) st' with
+      | none => none
+      | some (st'', mappings) => some (st'', mapping :: mappings)
+
+/-- value of slot `(dictionary, value index)` — `interleave(&values_arrays, &indices)` row by row -/
+def valAt (dicts : List Dict) (p : Nat × Nat) : Option Bytes :=
+  ((dicts[p.1]?).bind (fun d => d.values[p.2]?)).join
+
+/-- `merge_dictionary_values(dictionaries, masks)`: key mappings + merged values -/
+def mergeDictionaryValues (hash : Option Bytes → Nat) (maxKey : Nat) (dicts : List Dict)
+    (masks : Option (List (List Bool))) : Option (List (List Nat) × List (Option Bytes)) :=
+  (mergeLoop hash maxKey masks dicts 0 { buckets := [], indices := [] }).map
+    (fun r => (r.2, r.1.indices.map (valAt dicts)))
+
+/-- `concat_dictionaries` on the merge path: keys remapped through `key_mappings`
+(`mapping.get(key).unwrap_or_default()`), null keys kept -/
+def concatDictionaries (hash : Option Bytes → Nat) (maxKey : Nat) (dicts : List Dict) : Option Dict :=
+  (mergeDictionaryValues hash maxKey dicts none).map (fun r =>
+    { keys := (List.zipWith (fun (d : Dict) (m : List Nat) => d.keys.map (Option.map (fun k => m.getD k 0))) dicts r.1).flatten,
+      values := r.2 })
+
 /-! ### coalesce.rs -/
 
 /-- configuration of a `BatchCoalescer` -/
